@@ -20,6 +20,9 @@ pub struct SwapOp {
     /// if set: SwapOutput that returns the net position to an earlier visited value (index knob)
     pub ret: Option<u16>,
     pub new_block: bool,
+    /// value of SwapInput's can_go_over_fluctuation flag (no band is configured in these worlds)
+    #[serde(default)]
+    pub over: bool,
 }
 
 #[derive(Clone, Debug, Serialize, Deserialize)]
@@ -61,8 +64,8 @@ pub fn reserve_strategy() -> impl Strategy<Value = (u8, u128, u128)> {
 
 pub fn swap_strategy() -> impl Strategy<Value = SwapOp> {
     // flat tuple, no unions (see ops::op_strategy)
-    (any::<bool>(), any::<bool>(), 0u8..8, any::<u32>(), 0u8..6, 0u8..4, any::<u16>(), 0u8..5).prop_map(
-        |(input, add, class, k, limit_mode, r, rk, nb)| SwapOp {
+    (any::<bool>(), any::<bool>(), 0u8..8, any::<u32>(), 0u8..6, 0u8..4, any::<u16>(), 0u8..5, any::<bool>()).prop_map(
+        |(input, add, class, k, limit_mode, r, rk, nb, over)| SwapOp {
             input,
             add,
             class,
@@ -70,6 +73,7 @@ pub fn swap_strategy() -> impl Strategy<Value = SwapOp> {
             limit_mode,
             ret: if r == 3 { Some(rk) } else { None },
             new_block: nb == 4,
+            over,
         },
     )
 }
@@ -111,6 +115,7 @@ pub struct Resolved {
     pub add: bool,
     pub amount: u128,
     pub is_return: bool,
+    pub over: bool,
 }
 
 /// Resolve an op into a concrete swap (a `ret` op targets an earlier net position).
@@ -127,6 +132,7 @@ pub fn resolve(op: &SwapOp, st: &StateResponse, d: u128, seen: &[(S, u128, u128)
                     add: !diff.is_neg(),
                     amount: m,
                     is_return: true,
+                    over: false,
                 };
             }
         }
@@ -137,6 +143,7 @@ pub fn resolve(op: &SwapOp, st: &StateResponse, d: u128, seen: &[(S, u128, u128)
         // zero amounts are outside the domain: no caller of the vAMM sends one (the engine rejects zero inputs)
         amount: amount(op, st, d).max(1),
         is_return: false,
+        over: op.over,
     }
 }
 
@@ -146,7 +153,7 @@ pub fn swap_msg(r: &Resolved, limit: u128) -> ExecuteMsg {
             direction: dir(r.add),
             quote_asset_amount: Uint128::new(r.amount),
             base_asset_limit: Uint128::new(limit),
-            can_go_over_fluctuation: false,
+            can_go_over_fluctuation: r.over,
         }
     } else {
         ExecuteMsg::SwapOutput {
